@@ -121,4 +121,101 @@ theorem rollbackCbOuts_refines {c : Ctx} {ready : List Wid} (hAR : AllReady c.ow
     rw [foldIdxM_cons, h1, M_ok_bind]
     exact h2
 
+-- ------------------------------------------------------------------ rollbackTx
+
+theorem rollbackTx_skip {c : Ctx} {s : Store} {bals : Bals} {bm : BlockMeta} {id : TxId}
+    (hrec : AMap.get s.txrecs (id, bm) = none) : rollbackTx c s bals bm id = .ok (s, bals, []) := by
+  unfold rollbackTx
+  simp only [hrec]
+  rfl
+
+theorem rollbackTx_eq_tx {c : Ctx} {s : Store} {bals : Bals} {bm : BlockMeta} {t : Tx} {loc : BlkId × Nat}
+    (hrec : AMap.get s.txrecs (t.id, bm) = some loc) (hloc : c.node.txByFileLoc loc = some t)
+    (hcb : t.cb = false) :
+    rollbackTx c s bals bm t.id =
+      (foldIdxM (rollbackIn c t.id bm) t.ins 0
+          ({ s with txrecs := AMap.erase s.txrecs (t.id, bm), pending := AMap.put s.pending t.id t }, bals)
+        >>= fun sb => foldIdxM (rollbackOut c t.id bm) t.outs 0 sb
+        >>= fun sb => pure (sb.1, sb.2, [])) := by
+  unfold rollbackTx
+  simp only [hrec, hloc, hcb, Bool.false_eq_true, if_false]
+
+theorem rollbackTx_eq_cb {c : Ctx} {s : Store} {bals : Bals} {bm : BlockMeta} {t : Tx} {loc : BlkId × Nat}
+    (hrec : AMap.get s.txrecs (t.id, bm) = some loc) (hloc : c.node.txByFileLoc loc = some t)
+    (hcb : t.cb = true) :
+    rollbackTx c s bals bm t.id =
+      (foldIdxM (rollbackCbOut c t.id bm) t.outs 0
+          (({ s with txrecs := AMap.erase s.txrecs (t.id, bm) }, bals), [])
+        >>= fun r => pure (r.1.1, r.1.2, r.2)) := by
+  unfold rollbackTx
+  simp only [hrec, hloc, hcb, if_true]
+
+/-- deleting the transaction record (the pending set is not part of `AgreeR`) -/
+theorem agreeR_erase_txrec {s : Store} {B : Book} {k : TxId × BlockMeta} {loc : BlkId × Nat}
+    (hT : B.txrecs k = none) (hR : AgreeR s { B with txrecs := upd B.txrecs k (some loc) })
+    (pend : AMap.T TxId Tx) :
+    AgreeR { s with txrecs := AMap.erase s.txrecs k, pending := pend } B := by
+  refine ⟨hR.unspent, hR.credits, hR.debits, hR.game, ?_⟩
+  intro k'
+  simp only
+  rw [AMap.get_erase, hR.txrecs]
+  simp only [upd_apply]
+  by_cases hk : k = k'
+  · subst hk; simp only [if_true]; exact hT.symm
+  · simp only [hk, if_false]
+
+/-- rolling back the record of an ordinary transaction `t` of block `bm`: the store goes from the books
+    `Xs 0` plus the transaction record, through the un-spends `Xs 0 … Xs |ins|` and the output removals
+    `Ys 0 … Ys |outs|`, to `Ys |outs|` -/
+theorem rollbackTx_refines {c : Ctx} {ready : List Wid} (hAR : AllReady c.own ready)
+    {s : Store} {bals : Bals} {t : Tx} {bm : BlockMeta} {loc : BlkId × Nat} (Xs Ys : Nat → Book)
+    (hloc : c.node.txByFileLoc loc = some t) (hcb : t.cb = false)
+    (hT : (Xs 0).txrecs (t.id, bm) = none)
+    (hR : AgreeR s { Xs 0 with txrecs := upd (Xs 0).txrecs (t.id, bm) (some loc) })
+    (hB : AgreeBal ready bals (Xs 0))
+    (hins : ∀ k i, t.ins[k]? = some i → InStep c t bm Xs k i)
+    (hglue : BookEq (Xs t.ins.length) (Ys 0))
+    (houts : ∀ j o, t.outs[j]? = some o → OutStep c t bm Ys j o) :
+    ∃ s' bals' rem, rollbackTx c s bals bm t.id = .ok (s', bals', rem) ∧ AgreeR s' (Ys t.outs.length) ∧
+      AgreeBal ready bals' (Ys t.outs.length) ∧ SameRest s s' := by
+  have hrec : AMap.get s.txrecs (t.id, bm) = some loc := by
+    rw [hR.txrecs]; simp only [upd_apply, if_true]
+  have hR0 := agreeR_erase_txrec hT hR (AMap.put s.pending t.id t)
+  obtain ⟨sb1, h1, hR1, hB1, hS1⟩ :=
+    rollbackIns_refines hAR Xs hins t.ins 0 _ bals (by simp) (Nat.zero_le _) hR0 hB
+  obtain ⟨sb2, h2, hR2, hB2, hS2⟩ :=
+    rollbackOuts_refines hAR Ys houts t.outs 0 sb1.1 sb1.2 (by simp) (Nat.zero_le _) (hR1.congr hglue)
+      (hB1.congrL hglue)
+  refine ⟨sb2.1, sb2.2, [], ?_, hR2, hB2, ?_⟩
+  · rw [rollbackTx_eq_tx hrec hloc hcb, h1, M_ok_bind]
+    show (foldIdxM (rollbackOut c t.id bm) t.outs 0 (sb1.1, sb1.2) >>= _) = _
+    rw [h2, M_ok_bind]
+    rfl
+  · have h12 := hS1.trans hS2
+    exact ⟨h12.sync, h12.syncedTo, h12.status, h12.balance, h12.blocks⟩
+
+/-- rolling back the record of a coinbase transaction `t` of block `bm` (no TxIn loop; the owned outputs
+    are not deposits, see `CbOutStep`) -/
+theorem rollbackTx_refines_cb {c : Ctx} {ready : List Wid} (hAR : AllReady c.own ready)
+    {s : Store} {bals : Bals} {t : Tx} {bm : BlockMeta} {loc : BlkId × Nat} (Ys : Nat → Book)
+    (hloc : c.node.txByFileLoc loc = some t) (hcb : t.cb = true)
+    (hT : (Ys 0).txrecs (t.id, bm) = none)
+    (hR : AgreeR s { Ys 0 with txrecs := upd (Ys 0).txrecs (t.id, bm) (some loc) })
+    (hB : AgreeBal ready bals (Ys 0))
+    (houts : ∀ j o, t.outs[j]? = some o → CbOutStep c t bm Ys j o) :
+    ∃ s' bals' rem, rollbackTx c s bals bm t.id = .ok (s', bals', rem) ∧ AgreeR s' (Ys t.outs.length) ∧
+      AgreeBal ready bals' (Ys t.outs.length) ∧ SameRest s s' := by
+  have hrec : AMap.get s.txrecs (t.id, bm) = some loc := by
+    rw [hR.txrecs]; simp only [upd_apply, if_true]
+  have hR0 := agreeR_erase_txrec hT hR s.pending
+  obtain ⟨sb2, acc2, h2, hR2, hB2, hS2⟩ :=
+    rollbackCbOuts_refines hAR Ys houts t.outs 0 _ bals [] (by simp) (Nat.zero_le _) hR0 hB
+  refine ⟨sb2.1, sb2.2, acc2, ?_, hR2, hB2, ?_⟩
+  · rw [rollbackTx_eq_cb hrec hloc hcb]
+    show (foldIdxM (rollbackCbOut c t.id bm) t.outs 0
+      (({ s with txrecs := AMap.erase s.txrecs (t.id, bm), pending := s.pending }, bals), []) >>= _) = _
+    rw [h2, M_ok_bind]
+    rfl
+  · exact ⟨hS2.sync, hS2.syncedTo, hS2.status, hS2.balance, hS2.blocks⟩
+
 end MW.Lemmas.Ledger
